@@ -13,10 +13,16 @@ VERIF = os.path.dirname(os.path.dirname(os.path.abspath(__file__)))
 REPO = os.environ.get("VERIF_REPO", "/repo")
 LEAN = os.path.join(VERIF, "lean")
 BUILD = os.path.join(VERIF, ".build")
+if REPO != "/repo":
+    # a scratch copy of the repository (mutation experiments): keep its objects apart
+    BUILD = os.path.join(VERIF, ".build", "alt-" + hashlib.sha256(REPO.encode()).hexdigest()[:10])
 HARNESS = os.path.join(VERIF, "harness")
 EVIDENCE = os.path.join(VERIF, "evidence")
 REPLAYS = os.path.join(VERIF, "replays")
 CORPUS = os.path.join(VERIF, "corpus")
+if REPO != "/repo":
+    EVIDENCE = os.path.join(BUILD, "evidence")
+    REPLAYS = os.path.join(BUILD, "replays")
 GUARD = "MUDUO_VERIF"
 NCPU = os.cpu_count() or 4
 
@@ -105,11 +111,16 @@ def write_replay(prop, tag, text):
 
 
 def load_known():
-    p = os.path.join(VERIF, "known_findings.json")
-    if not os.path.exists(p):
-        return {"findings": [], "fixed": []}
-    with open(p) as f:
-        return json.load(f)
+    """known_findings/*.json, committed, never written at run time.
+    {"findings": [{"property","signature","what"}], "fixed": ["fixed: property=Cxx <commit> <what failed>"]}"""
+    import glob
+    res = {"findings": [], "fixed": []}
+    for p in sorted(glob.glob(os.path.join(VERIF, "known_findings", "*.json"))):
+        with open(p) as f:
+            d = json.load(f)
+        res["findings"] += d.get("findings", [])
+        res["fixed"] += d.get("fixed", [])
+    return res
 
 
 class Timer:
